@@ -203,6 +203,13 @@ def _op_bvp(ctx, op, state):
     guess = None
     if o.get("guess") == "zeros":
         guess = np.zeros((P["order"], x.size))
+    elif o.get("guess") == "ones":
+        guess = np.ones((P["order"], x.size))
+    elif o.get("guess") == "big":
+        guess = np.full((P["order"], x.size), 1.0e3)
+    elif o.get("guess") == "exact":
+        # the caller already knows the answer (y and its x-derivatives on the mesh): a good guess must not hurt
+        guess = np.array([OP.sol_deriv(P["terms"], k, np.asarray(x, dtype=float)) for k in range(P["order"])], dtype=float)
     ctx.rng.set_behaviour(beh, bseed)
     calls0 = ctx.rng.calls
     oc = _outcome(lambda: solve_ode_bvp(x, fx, coeffs, bd, transform=tf, tol=P["tol"], max_nodes=MAX_NODES, initial_guess_y=guess, no_derivatives=not derivs))
@@ -417,7 +424,9 @@ def _op_ivp(ctx, op, state):
     atol = 0.0 if (positive and _amp(P) != 1.0) else 1e-10 * _amp(P)
     if atol == 0.0:
         ctx.probes.hit("ivp-purely-relative-tolerance")
-    oc = _outcome(lambda: solve_ode_ivp((a, b), fx, coeffs, y0, transform=tf, method=method, no_derivatives=False, rtol=rtol, atol=atol))
+    no_derivs = len(op) > 6 and bool(op[6])  # only y(x) wanted (one row / a 1-D result through a transform)
+    span = (a, b) if (P["n"] % 3) else [a, b]
+    oc = _outcome(lambda: solve_ode_ivp(span, fx, coeffs, y0, transform=tf, method=method, no_derivatives=no_derivs, rtol=rtol, atol=atol))
     sig = f"{P['order']}:{_tname(tspec)}:{method}"
     if oc[0] == "raise":
         ctx.violate("ivp-raise", "ivp", f"{sig}:{type(oc[1]).__name__}", f"solve_ode_ivp raised {oc[1]!r} (order {P['order']}, transform {tspec}, method {method})")
@@ -509,12 +518,12 @@ class OdeSeamEngine:
                 beh = rng.choice(BEHAVIOURS)
                 o = {"derivs": rng.random() < 0.8, "share_tf": rng.random() < 0.3, "own_inputs": rng.random() < 0.25, "ti": rng.randrange(3),
                      "reentrant": rng.random() < 0.12}
-                if rng.random() < 0.08:
-                    o["guess"] = "zeros"
+                if rng.random() < 0.12:
+                    o["guess"] = rng.choice(["zeros", "zeros", "ones", "exact", "big"])  # an explicit initial guess instead of the draw
                 ops.append(["bvp", rng.choice(modes), beh, rng.randrange(1000), o])
             elif u < 0.78:
                 ops.append(["ivp", rng.choice(modes), rng.choice(["DOP853", "RK45", "Radau", "LSODA", "BDF", "RK23"]), rng.randrange(3), rng.random() < 0.25,
-                            rng.choice([None, None, None, "int_list", "int_array"])])
+                            rng.choice([None, None, None, "int_list", "int_array"]), rng.random() < 0.25])
             elif u < 0.88:
                 ops.append(["perturb", rng.randrange(200), rng.choice([None, 0, 7])])
             else:
